@@ -238,7 +238,13 @@ pub fn run_families(property: &str, tier: &str, fams: Vec<Family>, budget_s: f64
             });
             let mut handles = vec![];
             for _ in 0..nworkers {
-                handles.push(s.spawn(|| { let my = wid.fetch_add(1, Ordering::Relaxed); loop {
+                handles.push(s.spawn(|| { let my = wid.fetch_add(1, Ordering::Relaxed);
+                    // The execution that ran on this thread right before the current one
+                    // (scenario index, choices): used to confirm violations that depend on
+                    // state a previous simulation left on the thread.
+                    let last_exec: std::cell::RefCell<Option<(usize, Vec<u16>)>> = std::cell::RefCell::new(None);
+                    let prev_of_found: std::cell::RefCell<Option<(usize, Vec<u16>)>> = std::cell::RefCell::new(None);
+                    loop {
                     let i = next.fetch_add(1, Ordering::Relaxed);
                     if i >= fam.scenarios.len() || stop.load(Ordering::Relaxed) {
                         break;
@@ -259,7 +265,7 @@ pub fn run_families(property: &str, tier: &str, fams: Vec<Family>, budget_s: f64
                         Some((threads, _)) => {
                             let mut spec2 = (*sc.spec).clone();
                             spec2.threads = threads;
-                            sc_unc = Scenario { spec: std::sync::Arc::new(spec2), cmds: sc.cmds.clone(), label: sc.label.clone() };
+                            sc_unc = Scenario { spec: std::sync::Arc::new(spec2), cmds: sc.cmds.clone(), label: sc.label.clone(), prelude: sc.prelude.clone() };
                             (&sc_unc, false)
                         }
                         None => (sc, true),
@@ -304,8 +310,10 @@ pub fn run_families(property: &str, tier: &str, fams: Vec<Family>, budget_s: f64
                         }
                         let cont = v.is_empty();
                         if !cont {
-                            found = Some((choices, v));
+                            *prev_of_found.borrow_mut() = last_exec.borrow().clone();
+                            found = Some((choices.clone(), v));
                         }
+                        *last_exec.borrow_mut() = Some((i, choices));
                         Ok((out.chooser, cont))
                     };
                     let res = if controlled {
@@ -374,18 +382,49 @@ pub fn run_families(property: &str, tier: &str, fams: Vec<Family>, budget_s: f64
                                 family: fam.name.to_string(), scenario: i, label: sc.label.clone(), choices: choices.clone(),
                                 tag: v[0].tag.to_string(), msg: v[0].msg.clone(), replay: path,
                             });
-                        } else if o1.log != o2.log {
-                            *mach.lock().unwrap() = Some(format!(
-                                "family {} scenario {}: replay of {:?} is not deterministic",
-                                fam.name, i, choices
-                            ));
-                            stop.store(true, Ordering::Relaxed);
-                        } else if v1.is_empty() && !inv_only {
-                            *mach.lock().unwrap() = Some(format!(
-                                "family {} scenario {}: violation {:?} not reproduced on replay",
-                                fam.name, i, v[0].msg
-                            ));
-                            stop.store(true, Ordering::Relaxed);
+                        } else if o1.log != o2.log || (v1.is_empty() && !inv_only) {
+                            // Not reproducible in isolation: the failure may depend on state that
+                            // the preceding simulation left on this thread. Replay the pair twice.
+                            let mut confirmed = None;
+                            if let Some((pi, pc)) = prev_of_found.borrow().clone() {
+                                let psc = &fam.scenarios[pi];
+                                let pair = |_: u8| {
+                                    let _ = run_once(psc, &pc, true);
+                                    let o = run_once(sc, &choices, true);
+                                    let a = analyze(sc, &o);
+                                    let vv = selected(fam, sc, &o, &a);
+                                    (o, vv)
+                                };
+                                let (p1, pv1) = pair(0);
+                                let (p2, pv2) = pair(1);
+                                if p1.log == p2.log && !pv1.is_empty() && !pv2.is_empty() {
+                                    confirmed = Some((pi, pc, p1, pv1));
+                                }
+                            }
+                            match confirmed {
+                                Some((pi, pc, p1, pv1)) => {
+                                    let path = format!("{}/{}-{}-{}.json", replay_dir, property, fam.name, i);
+                                    let _ = std::fs::create_dir_all(replay_dir);
+                                    let mut js = replay_json(property, fam, i, &choices, &pv1, &p1);
+                                    js["preceding_simulation"] = json!({"scenario_index": pi, "label": fam.scenarios[pi].label, "choices": pc,
+                                        "note": "the violation only shows when this simulation ran on the same thread right before: simulations interfere through state left on the thread"});
+                                    let _ = std::fs::write(&path, serde_json::to_string_pretty(&js).unwrap());
+                                    stop.store(true, Ordering::Relaxed);
+                                    viols.lock().unwrap().push(Violation {
+                                        family: fam.name.to_string(), scenario: i, label: sc.label.clone(), choices: choices.clone(),
+                                        tag: pv1[0].tag.to_string(),
+                                        msg: format!("{} [only after simulation '{}' ran on the same thread]", pv1[0].msg, fam.scenarios[pi].label),
+                                        replay: path,
+                                    });
+                                }
+                                None => {
+                                    *mach.lock().unwrap() = Some(format!(
+                                        "family {} scenario {}: violation {:?} (choices {:?}) is not reproducible, neither alone nor after the preceding execution",
+                                        fam.name, i, v[0].msg, choices
+                                    ));
+                                    stop.store(true, Ordering::Relaxed);
+                                }
+                            }
                         } else {
                             let path = format!("{}/{}-{}-{}.json", replay_dir, property, fam.name, i);
                             let _ = std::fs::create_dir_all(replay_dir);
